@@ -351,7 +351,7 @@ def r4(ctx, retsets):
             synced = bool(seen_sy) and all(x == "1" for x in seen_sy)
             nxt = [k for k in f.calls("rtr_mgr_close_less_preferable_groups") if k.block.id == c.block.id and f.dom(c, k)]
             between = [i for i in c.block.insts if nxt and c.idx < i.idx < nxt[0].idx and i.op in ("call", "store")]
-            follow = bool(nxt) and not between and vf.expr(f, nxt[0].args[2]) == vf.expr(f, c.args[1]) and vf.expr(f, nxt[0].args[1]) == vf.expr(f, c.args[0])
+            follow = bool(nxt) and not between and vf.expr(f, c.args[1]) in [vf.expr(f, a) for a in nxt[0].args] and vf.expr(f, c.args[0]) in [vf.expr(f, a) for a in nxt[0].args]
             ctx.check(synced and follow, "C15.R4", "ESTABLISHED-report@%s#%d" % (f.name, n), c.loc(),
                       "under status_is_synced(group): %s; followed at once by close_less_preferable_groups(config, group): %s" % (synced, follow),
                       key="C15.R4:%s:established" % f.name)
@@ -661,10 +661,14 @@ def r6(ctx, retsets):
                     head_ok = vf.last_field(vf.expr(gb, inst.args[0])) == "tommy_list_wrapper.list"
                     return [(["head" if head_ok else "head?"], {inst.ref: ("nin", frozenset([0]))})]
                 if inst.op == "load" and vf.last_field(vf.expr(gb, inst["ptr"])) == "tommy_node_struct.next":
+                    # there is another element; 'walks on' = that element is looked at
+                    return ["=adv:1"]
+                if inst.op == "load" and vf.last_field(vf.expr(gb, inst["ptr"])) == "tommy_node_struct.data" and st.get("adv") == "1":
                     went_on.append(1)
                     return flow.KILL
                 return None
-            outs, fl = es.count_effects(gb, pdb, classify, retsets, oracle=oracle)
+            outs, fl = es.count_effects(gb, pdb, classify, retsets, oracle=oracle,
+                                        values=lambda pe: ("nin", frozenset([0])) if vf.last_field(pe) in ("tommy_node_struct.next", "tommy_node_struct.data", "rtr_mgr_group_node.group") else None)
             picked = [o for o in outs if o["ret"] != flow.av_in(0)]
             should = st_closed and not same
             good = (bool(picked) and not went_on and all(vf.expr(gb, o["inst"]["val"])[0] in ("load", "phi") for o in picked)) if should else (not picked and bool(went_on))
